@@ -11,9 +11,10 @@ import posixpath
 KINDS = ('use', 'forward', 'import', 'load-css')
 MODULE_KINDS = ('use', 'forward')
 # where the non-entry files may live (the directory d/ always exists: see KEEP)
-PLACEMENTS = ['a.scss', 'd/b.scss', '_p.scss', 'd/_q.scss', 'c.scss', 'd/e/f.scss', 'd/g.scss', 'h.scss']
-KEEP = {'d/_keep.scss': '', 'd/e/_keep.scss': ''}
-VARIANTS = ('plain', 'dot', 'updown', 'ext', 'underscore', 'dotdot2')
+PLACEMENTS = ['a.scss', 'd/b.scss', '_p.scss', 'd/_q.scss', 'c.scss', 'd/e/f.scss', 'd/g.scss', 'h.scss',
+              'k/_index.scss', 'k/z.scss', 'k/s/y.scss', 'd/m/index.scss']
+KEEP = {'d/_keep.scss': '', 'd/e/_keep.scss': '', 'k/_keep.scss': '', 'k/s/_keep.scss': '', 'd/m/_keep.scss': ''}
+VARIANTS = ('plain', 'dot', 'updown', 'ext', 'underscore', 'dotdot2', 'enddot')
 
 
 def _rel(importer, target):
@@ -30,6 +31,12 @@ def spell(importer, target, variant):
     bare = stem[1:] if partial else stem
     join = lambda h, b: (h + '/' + b) if h else b
     plain = join(head, bare)
+    is_index = bare == 'index'
+    if is_index:
+        # a directory index is loaded through the URL of its directory ('.' when the importer lives in it)
+        plain = head if head else '.'
+    if variant == 'enddot':
+        return plain + '/.' if is_index else None
     idir = posixpath.dirname(importer)
     if variant == 'plain':
         return plain
@@ -43,7 +50,7 @@ def spell(importer, target, variant):
     if variant == 'ext':
         return rel                                     # the exact file name, underscore and extension included
     if variant == 'underscore':
-        return join(head, stem) if partial else None
+        return join(head, stem) if partial or is_index else None
     if variant == 'dotdot2':
         if idir == '':
             return './d/e/../../' + plain
@@ -81,6 +88,12 @@ def render(graph, marker=lambda i: '.f%d{x:y}' % i, extra=None):
             mid, end = extra(i, uses)
         files[path] = '\n'.join(head + [mid, marker(i)] + tail + [end]) + '\n'
     return files
+
+
+def valid(graph):
+    """Every edge's spelling variant applies to its target."""
+    return all(spell(graph['files'][i], graph['files'][e[1]], e[2]) is not None
+               for i, es in enumerate(graph['edges']) for e in es)
 
 
 def ordered_edges(edges):
